@@ -4,6 +4,7 @@ import (
 	"golang.org/x/tools/go/ssa"
 	"encoding/json"
 	"fmt"
+	"go/types"
 	"os"
 	"path/filepath"
 	"sort"
@@ -46,6 +47,7 @@ type PropCfg struct {
 	Technique  string   `json:"technique"`
 	NoContract bool     `json:"no_contract"` // include matching functions without contract (zero-annotation sweep)
 	Safety     bool     `json:"safety"`      // prove absence of panics (nil dereference, index, failed assertion, explicit panic) in every function of the set
+	SafetyFunctions []string `json:"safety_functions"` // the same, for the functions of the set that match one of these patterns
 }
 
 func wildcard(pat, s string) bool {
@@ -271,13 +273,18 @@ func RunCheck(id, tier, repo string, seed int, updateBaseline, quiet, writeEvide
 		return CheckResult{Exit: 2}
 	}
 	var units []*Unit
+	var devSafety []string // development aid: GOVC_SAFETY=pat,pat switches panic-freedom on for more functions
+	if v := os.Getenv("GOVC_SAFETY"); v != "" {
+		devSafety = strings.Split(v, ",")
+	}
 	genStart := time.Now()
 	for _, n := range names {
-		eng.ForceSafety = cfg.Safety
+		eng.ForceSafety = cfg.Safety || anyMatch(cfg.SafetyFunctions, n) || devSafety != nil && anyMatch(devSafety, n)
 		units = append(units, eng.GenUnit(eng.Funcs[n]))
 		eng.ForceSafety = false
 	}
 	units = append(units, eng.constUnit(cfg)...)
+	units = append(units, eng.immutableUnits(names)...)
 	units = append(units, eng.lemmaUnits(cfg)...)
 	genS := time.Since(genStart).Seconds()
 	var unsupported []string
@@ -290,7 +297,7 @@ func RunCheck(id, tier, repo string, seed int, updateBaseline, quiet, writeEvide
 		emitf(quiet, "UNDECIDED property=%s: outside the verified subset / contract does not type-check:\n  %s\n", id, strings.Join(unsupported, "\n  "))
 		return CheckResult{Exit: 2}
 	}
-	tmo := 10
+	tmo := 30 // generous: obligations that hold answer within a few seconds; the margin is for loaded machines
 	allSolvers := false
 	if tier == "thorough" {
 		tmo = 60
@@ -490,6 +497,7 @@ func RunCheck(id, tier, repo string, seed int, updateBaseline, quiet, writeEvide
 		for _, r := range cfg.Residue {
 			addA("undecided residue: " + r)
 		}
+		nSafe := 0
 		for _, u := range units {
 			nob := 0
 			for _, o := range u.Obls {
@@ -497,7 +505,10 @@ func RunCheck(id, tier, repo string, seed int, updateBaseline, quiet, writeEvide
 					nob++
 				}
 			}
-			fnInfo = append(fnInfo, map[string]interface{}{"function": u.Name, "ssa_blocks": u.Blocks, "ssa_instrs": u.Instrs, "obligations": nob})
+			fnInfo = append(fnInfo, map[string]interface{}{"function": u.Name, "ssa_blocks": u.Blocks, "ssa_instrs": u.Instrs, "obligations": nob, "panic_freedom_proved": u.Safety})
+			if u.Safety {
+				nSafe++
+			}
 			for _, a := range u.Assumptions {
 				addA(a)
 			}
@@ -606,6 +617,7 @@ func RunCheck(id, tier, repo string, seed int, updateBaseline, quiet, writeEvide
 			"trusted_base":            trustedBase(),
 			"functions_under_contract": fnInfo,
 			"functions":               len(names),
+			"functions_panic_freedom_proved": nSafe,
 			"obligation_parts":        nParts,
 			"solver_seconds_total":    round2(solverTime),
 			"solver_wall_s":           round2(solveWall),
@@ -690,7 +702,7 @@ func trustedAssumptions() []string {
 		"nil dereferences, index errors and failed type assertions are assumed absent in functions without 'safety on' (a panic is not a return, so postconditions say nothing about it)",
 		"strings are modelled as byte sequences in the SMT string theory; float64 arithmetic is uninterpreted",
 		"allocation never fails; no stack overflow; no slice is longer than 2^48 elements (address-space bound)",
-		"type invariants (typeinv) follow visible-state semantics: proved at every allocation site and at the exit of every verified function that stores into the type, assumed for pointer parameters at entry and (when they held before) after a call; NOT re-proved at call sites for objects reached through fields, so a function that breaks the invariant of an object it reaches through a field without receiving it as a parameter is not caught",
+		"type invariants (typeinv) follow visible-state semantics: proved at every allocation site and at the exit of every verified function that stores into the type, assumed for pointer parameters at entry, for the objects a function that neither allocates nor stores into the type hands to a verified callee, and (when they held before) after a call; NOT re-proved at call sites for objects reached through fields, so a function that breaks the invariant of an object it reaches through a field without receiving it as a parameter is not caught",
 	}
 }
 
@@ -715,6 +727,77 @@ func (e *Engine) constUnit(cfg *PropCfg) []*Unit {
 			u.Unsupported = append(u.Unsupported, err.Error())
 		} else {
 			g.oblige("const", cc.Name, t, cc.Src)
+		}
+		out = append(out, u)
+	}
+	return out
+}
+
+// ---- immutable fields: a scan of every function of the module ----
+
+func (e *Engine) immutableUnits(names []string) []*Unit {
+	pkgs := map[string]bool{}
+	for _, n := range names {
+		if fn := e.Funcs[n]; fn != nil {
+			pkgs[pkgPathOf(fn)] = true
+		}
+	}
+	byPkg := map[string][]ImmutableDecl{}
+	for _, d := range e.DB.Immutable {
+		if pkgs[d.Pkg] {
+			byPkg[d.Pkg] = append(byPkg[d.Pkg], d)
+		}
+	}
+	var out []*Unit
+	var pk []string
+	for p := range byPkg {
+		pk = append(pk, p)
+	}
+	sort.Strings(pk)
+	for _, p := range pk {
+		u := &Unit{Name: shortName(p) + ".immutable", Sorts: newSorts(e), UsedContracts: map[string]bool{}}
+		g := &vcgen{eng: e, u: u, s: u.Sorts, st: &State{m: map[string]string{}}, pc: "true", varSort: map[string]string{}, declared: map[string]bool{},
+			embIDs: map[string]int{}, callOrd: map[string]int{}, freshObjs: map[string]bool{}}
+		for _, d := range byPkg[p] {
+			var bad []string
+			for _, fn := range e.AllFuncs {
+				if fn.Blocks == nil || !e.InModule(fn) {
+					continue
+				}
+				for _, b := range fn.Blocks {
+					for _, ins := range b.Instrs {
+						st, ok := ins.(*ssa.Store)
+						if !ok {
+							continue
+						}
+						fa, ok := st.Addr.(*ssa.FieldAddr)
+						if !ok {
+							continue
+						}
+						pt, ok := fa.X.Type().Underlying().(*types.Pointer)
+						if !ok {
+							continue
+						}
+						n := namedOf(pt.Elem())
+						stt, isS := pt.Elem().Underlying().(*types.Struct)
+						if n == nil || !isS || n.Obj().Pkg() == nil || n.Obj().Pkg().Path() != d.Pkg || n.Obj().Name() != d.Type || stt.Field(fa.Field).Name() != d.Field {
+							continue
+						}
+						if _, fresh := fa.X.(*ssa.Alloc); fresh {
+							continue // initialisation of an object this function has just allocated
+						}
+						bad = append(bad, shortName(FullName(fn)))
+					}
+				}
+			}
+			goal := "true"
+			src := d.Src
+			if len(bad) > 0 {
+				sort.Strings(bad)
+				goal = "false"
+				src += " — stored to by " + strings.Join(bad, ", ")
+			}
+			g.oblige("immutable", d.Type+"."+d.Field, goal, src)
 		}
 		out = append(out, u)
 	}
